@@ -51,6 +51,30 @@ func runC18(c *Ctx) {
 	c.Rule("C18.run-loop", "BaseClient.run: Recv error EOF/ErrStopReading => return nil without closing; other error => impl.Close() and return it; nil => load closed under mu before the next Recv, return nil when set. BaseClient.Close: nil impl => ErrClientInit without effect; otherwise closed=true is stored under mu before impl.Close() on every path")
 	c.Rule("C18.connected-first", "gnmi (*Client).defaultRecv and fake (*Client).Recv: with connected==false the first handler invocation passes client.Connected{} and connected=true is stored before any other handler call; with connected==true no Connected is delivered; connected is never stored false")
 	c.Rule("C18.order", "no `go`, channel send/receive or select between the stream Recv and the handler calls in client/gnmi Recv/defaultRecv/noti (delivery order = receive order)")
+	c.Rule("C18.ctx-derived", "packages client and client/gnmi (non-test): no context.Background()/context.TODO(); every context.With{Cancel,Timeout,Deadline} parent is the enclosing function's context parameter (or one captured from it), so cancelling the caller's context (what Close does) interrupts dials and RPCs")
+	{
+		n := 0
+		for _, pk := range []string{"client", "client/gnmi"} {
+			for _, f := range P.PkgFuncs(pk) {
+				if P.InTestFile(f) {
+					continue
+				}
+				for _, ci := range callsIn(f) {
+					nm := calleeName(ci.Common())
+					switch nm {
+					case "context.Background", "context.TODO":
+						c.Bad("C18.ctx-derived", fnName(f), "call of "+nm, P.Pos(ci.Pos()), "a context detached from the caller cannot be cancelled by Close")
+					case "context.WithCancel", "context.WithTimeout", "context.WithDeadline":
+						n++
+						parent := ci.Common().Args[0]
+						ok := ctxFromParam(parent, 0)
+						c.Check(ok, "C18.ctx-derived", fnName(f), nm+" parent", P.Pos(ci.Pos()), "parent context: "+Expr(parent))
+					}
+				}
+			}
+		}
+		c.Floor("C18.ctx-derived/derivations", n, 2)
+	}
 	c.Rule("C18.getfirst", "getFirst: errC is made with capacity len(types); implC unbuffered; every goroutine either sends its error on errC or offers its Impl in a select whose other arm (done) closes the Impl")
 
 	// ---- locks
@@ -571,4 +595,58 @@ func runC18(c *Ctx) {
 			}
 		}
 	}
+}
+
+// ctxFromParam: the context value is a context.Context parameter of the enclosing
+// function, a variable captured from one, or derived from one by context.With*.
+func ctxFromParam(v ssa.Value, d int) bool {
+	if d > 8 {
+		return false
+	}
+	switch x := v.(type) {
+	case *ssa.Parameter:
+		return strings.HasSuffix(x.Type().String(), "context.Context")
+	case *ssa.FreeVar:
+		if b := bindingOf(x); b != nil {
+			return ctxFromParam(b, d+1)
+		}
+	case *ssa.UnOp:
+		if al, ok := x.X.(*ssa.Alloc); ok {
+			if s := singleStore(al); s != nil {
+				return ctxFromParam(s, d+1)
+			}
+		}
+		if fv, ok := x.X.(*ssa.FreeVar); ok {
+			if b := bindingOf(fv); b != nil {
+				if al, ok := b.(*ssa.Alloc); ok {
+					if s := singleStore(al); s != nil {
+						return ctxFromParam(s, d+1)
+					}
+				}
+			}
+		}
+	case *ssa.Alloc:
+		if s := singleStore(x); s != nil {
+			return ctxFromParam(s, d+1)
+		}
+	case *ssa.Extract:
+		if call, ok := x.Tuple.(*ssa.Call); ok && x.Index == 0 {
+			switch calleeName(&call.Call) {
+			case "context.WithCancel", "context.WithTimeout", "context.WithDeadline":
+				return ctxFromParam(call.Call.Args[0], d+1)
+			}
+		}
+	case *ssa.Call:
+		if calleeName(&x.Call) == "context.WithValue" {
+			return ctxFromParam(x.Call.Args[0], d+1)
+		}
+	case *ssa.Phi:
+		for _, e := range x.Edges {
+			if !ctxFromParam(e, d+1) {
+				return false
+			}
+		}
+		return len(x.Edges) > 0
+	}
+	return false
 }
